@@ -1,5 +1,5 @@
 (* C16 -- invariant preservation by timers, write_message, close(); whole steps; whole runs. *)
-From Coq Require Import List NArith Bool Lia.
+From Coq Require Import List NArith Arith Bool Lia.
 Import ListNotations.
 From TV Require Import Lib.Obs C16.Model C16.Spec C16.Inv C16.Inv2.
 
@@ -24,55 +24,75 @@ Proof.
     (eexists; split; [repeat split; fin Hb Hd | auto; try (intros; discriminate)]).
 Qed.
 
-(* ---------- write_message ---------- *)
+(* ---------- write_message, ping() ---------- *)
 Lemma write_ok : forall r a s,
   Jb a s = true -> Jd a s -> a_sc a = s_sc s ->
   fst (write r s) = s
   /\ mon_items a (snd (write r s)) = Some a
-  /\ (if closing a
-      then cnt is_wok (snd (write r s)) = 0%nat /\ cnt is_werr (snd (write r s)) = 1%nat /\ cnt is_data (snd (write r s)) = 0%nat
-      else cnt is_wok (snd (write r s)) = 1%nat /\ cnt is_werr (snd (write r s)) = 0%nat /\ cnt is_data (snd (write r s)) = 1%nat).
+  /\ counts (snd (write r s)) = expected EWrite a.
 Proof.
   intros r a s Hb Hd Hsc.
   destruct (Jb_parts _ _ Hb) as (He & Hs & Hs2 & Hhc & Hcs & _ & _ & _ & _ & Hl & Hh).
   brk. cbn in *|-. subst.
-  unfold write, is_closing, closing. unf. cbn [a_sent a_hc a_sc a_local is_some].
+  unfold write, is_closing, expected, expected_b, closing. unf. cbn [a_sent a_hc a_sc a_local is_some].
   destruct s_hconn0, s_sc0, s_ct0, s_st0, a_sent0, a_local0; cbn;
     try (specialize (Hs eq_refl); discriminate);
     try (specialize (Hcs eq_refl); discriminate);
     try (specialize (Hl eq_refl); discriminate);
     try (destruct (Hs2 eq_refl eq_refl); discriminate);
-    try (destruct (Hh eq_refl); discriminate);
+    try (destruct (Hh eq_refl) as [? | [? | ?]]; discriminate);
+    destruct a_hc0; cbn; try (specialize (Hhc eq_refl); discriminate); auto.
+Qed.
+
+Lemma app_ping_ok : forall a s,
+  Jb a s = true -> Jd a s -> a_sc a = s_sc s ->
+  fst (app_ping s) = s
+  /\ mon_items a (snd (app_ping s)) = Some a
+  /\ counts (snd (app_ping s)) = expected EAppPing a.
+Proof.
+  intros a s Hb Hd Hsc.
+  destruct (Jb_parts _ _ Hb) as (He & Hs & Hs2 & Hhc & Hcs & _ & _ & _ & _ & Hl & Hh).
+  brk. cbn in *|-. subst.
+  unfold app_ping, is_closing, expected, expected_b, closing. unf. cbn [a_sent a_hc a_sc a_local is_some].
+  destruct s_hconn0, s_sc0, s_ct0, s_st0, a_sent0, a_local0; cbn;
+    try (specialize (Hs eq_refl); discriminate);
+    try (specialize (Hcs eq_refl); discriminate);
+    try (specialize (Hl eq_refl); discriminate);
+    try (destruct (Hs2 eq_refl eq_refl); discriminate);
+    try (destruct (Hh eq_refl) as [? | [? | ?]]; discriminate);
     destruct a_hc0; cbn; try (specialize (Hhc eq_refl); discriminate); auto.
 Qed.
 
 (* ---------- handler.close / conn.close ---------- *)
 Lemma local_close_ok : forall code reason a s,
-  Jb a s = true -> Jd a s ->
-  exists a', okstep (note_event (ELocalClose code reason) a) s (local_close code reason s) a'
-             /\ a_local a' = true.
+  Jb a s = true -> Jd a s -> a_sc a = s_sc s ->
+  exists a',
+    mon_items (note_event (ELocalClose code reason) a) (snd (local_close code reason s)) = Some a'
+    /\ Jb a' (fst (local_close code reason s)) = true /\ Jd a' (fst (local_close code reason s))
+    /\ a_sc a' = a_sc a
+    /\ (s_sc s = true -> s_sc (fst (local_close code reason s)) = true)
+    /\ counts (snd (local_close code reason s)) = expected (ELocalClose code reason) a
+    /\ (negb (closing a) && negb (close_args_ok code reason) = true -> fst (local_close code reason s) = s).
 Proof.
-  intros code reason a s Hb Hd.
-  destruct (Jb_parts _ _ Hb) as (He & Hs & Hs2 & _).
-  brk. cbn in He, Hs, Hs2. subst.
-  unfold local_close, proto_close, okstep, note_event. unf. cbn [is_close_ev orb].
-  rewrite orb_true_r.
-  destruct s_hconn0; unf;
+  intros code reason a s Hb Hd Hsc.
+  destruct (Jb_parts _ _ Hb) as (He & Hs & Hs2 & Hhc & Hcs & _ & _ & _ & _ & Hl & Hh).
+  brk. cbn in He, Hs, Hs2, Hhc, Hcs, Hl, Hh, Hsc. subst.
+  unfold local_close, proto_close, note_event, expected, expected_b, closing. unf.
+  cbn [is_close_ev a_sent a_hc a_sc a_local is_some].
+  destruct (close_args_ok code reason); rewrite ?orb_true_r, ?orb_false_r, ?andb_false_r, ?andb_true_r;
+    destruct s_hconn0; unf;
     destruct s_st0, a_sent0; try (specialize (Hs eq_refl); discriminate);
     destruct s_sc0; try (destruct (Hs2 eq_refl eq_refl); discriminate);
-    destruct s_ct0, s_wait0; unf; cbn;
-    (eexists; split; [repeat split; fin Hb Hd | auto]).
+    destruct a_local0; try (specialize (Hl eq_refl); discriminate);
+    try (destruct (Hh eq_refl) as [? | [? | ?]]; discriminate);
+    destruct s_ct0; try (specialize (Hcs eq_refl); discriminate);
+    destruct a_hc0; try (specialize (Hhc eq_refl); discriminate);
+    destruct s_wait0; unf; cbn;
+    (eexists; repeat split; fin Hb Hd).
 Qed.
 
 (* ---------- the synchronous part of one event ---------- *)
-Definition wcount (e : event) (a : acc) (o : list item) : Prop :=
-  match e with
-  | EWrite =>
-      if closing a
-      then cnt is_wok o = 0%nat /\ cnt is_werr o = 1%nat /\ cnt is_data o = 0%nat
-      else cnt is_wok o = 1%nat /\ cnt is_werr o = 0%nat /\ cnt is_data o = 1%nat
-  | _ => quiet o
-  end.
+Definition wcount (e : event) (a : acc) (o : list item) : Prop := counts o = expected e a.
 
 Lemma note_event_id : forall e a, is_close_ev e = false -> note_event e a = a.
 Proof. intros e a H. destruct a; unfold note_event; cbn. rewrite H, orb_false_r. reflexivity. Qed.
@@ -87,11 +107,11 @@ Lemma act_ok : forall c e a s q,
     /\ (e = ETick -> a_sent a = true -> s_sc (fst (fst (act c e (s, q)))) = true)
     /\ wcount e a (snd (act c e (s, q))).
 Proof.
-  intros c e a s q Hb Hd Hsc.
-  destruct e as [code reason|f| | | | | |]; cbn [act].
-  - destruct (local_close_ok code reason a s Hb Hd) as (a1 & (K1 & K2 & K3 & K4 & K5 & K6 & K7 & K8) & K9).
+  intros c e a s q Hb Hd Hsc. unfold wcount.
+  destruct e as [code reason|f| | | | | | | |]; cbn [act].
+  - destruct (local_close_ok code reason a s Hb Hd Hsc) as (a1 & K1 & K2 & K3 & K4 & K5 & K6 & K7).
     exists a1. destruct (local_close code reason s) as [s1 o]. cbn [fst snd] in *.
-    repeat split; auto; try discriminate; try apply K8.
+    repeat split; auto; try discriminate.
   - rewrite note_event_id by reflexivity. exists a. cbn. repeat split; auto; try discriminate.
   - rewrite note_event_id by reflexivity. exists a. cbn. repeat split; auto; try discriminate.
   - rewrite note_event_id by reflexivity. exists a. cbn [fst snd mon_items].
@@ -107,6 +127,16 @@ Proof.
             /\ s_sc (match s_loop s with LBlocked => set_loop LRead s | _ => s end) = s_sc s) as (B1 & B2 & B3).
     { brk. unf. destruct s_loop0; unf; repeat split; auto; bsolve Hb. }
     repeat split; auto; try discriminate; try (rewrite B3; auto).
+  - rewrite note_event_id by reflexivity.
+    destruct (s_loop s) eqn:Hl; cbn [fst snd mon_items mon_item];
+      try (exists a; repeat split; auto; try discriminate; fail).
+    destruct (abort_ok a s Hb Hd) as (Ab & Ad & Asc & Act & Alo & Aca & Ahc & _).
+    exists a.
+    assert (Jb a (set_loop LRead (abort s)) = true /\ Jd a (set_loop LRead (abort s))
+            /\ s_sc (set_loop LRead (abort s)) = true) as (B1 & B2 & B3).
+    { rewrite Hl in Alo. revert Ab Ad Asc Alo. generalize (abort s) as s'. intros s' Ab Ad Asc Alo.
+      brk. unf. cbn in Alo, Asc. subst. repeat split; auto; try (bsolve Ab). }
+    repeat split; auto; try discriminate.
   - rewrite note_event_id by reflexivity. exists a. cbn [fst snd mon_items].
     assert (Jb a (match s_loop s with LOpening => set_loop LRead s | _ => s end) = true
             /\ Jd a (match s_loop s with LOpening => set_loop LRead s | _ => s end)
@@ -117,19 +147,16 @@ Proof.
     destruct (write_ok (c_role c) a s Hb Hd Hsc) as (W1 & W2 & W3).
     exists a. destruct (write (c_role c) s) as [s1 o]. cbn [fst snd] in *. subst s1.
     repeat split; auto; try discriminate.
+  - rewrite note_event_id by reflexivity.
+    destruct (app_ping_ok a s Hb Hd Hsc) as (W1 & W2 & W3).
+    exists a. destruct (app_ping s) as [s1 o]. cbn [fst snd] in *. subst s1.
+    repeat split; auto; try discriminate.
 Qed.
 
 (* ---------- the invariant at event boundaries ---------- *)
 Definition Inv (a : acc) (m : mstate) : Prop :=
   Jb a (fst m) = true /\ Jd a (fst m) /\ a_sc a = s_sc (fst m)
   /\ (s_loop (fst m) = LRead -> s_sc (fst m) = false).
-
-Lemma cnt_quiet_app : forall f o1 o2, quiet o2 -> (f = is_wok \/ f = is_werr \/ f = is_data) ->
-  cnt f (o1 ++ o2) = cnt f o1.
-Proof.
-  intros f o1 o2 (Q1 & Q2 & Q3) H. rewrite cnt_app.
-  destruct H as [-> | [-> | ->]]; lia.
-Qed.
 
 Lemma step_ok : forall c e a m,
   Inv a m ->
@@ -161,17 +188,9 @@ Proof.
       - destruct (s_sc s2); reflexivity. }
     assert (E5 : implb (a_sc a) (s_sc s2) = true).
     { rewrite Hsc. destruct (s_sc s) eqn:Es; cbn; auto. }
-    assert (E6 : match e with
-                 | EWrite =>
-                     if closing a
-                     then (Nat.eqb (cnt is_wok (o1 ++ o2)) 0 && Nat.eqb (cnt is_werr (o1 ++ o2)) 1 && Nat.eqb (cnt is_data (o1 ++ o2)) 0)%bool
-                     else (Nat.eqb (cnt is_wok (o1 ++ o2)) 1 && Nat.eqb (cnt is_werr (o1 ++ o2)) 0 && Nat.eqb (cnt is_data (o1 ++ o2)) 1)%bool
-                 | _ => (Nat.eqb (cnt is_wok (o1 ++ o2)) 0 && Nat.eqb (cnt is_werr (o1 ++ o2)) 0 && Nat.eqb (cnt is_data (o1 ++ o2)) 0)%bool
-                 end = true).
-    { rewrite !(cnt_quiet_app _ o1 o2 S8) by auto.
-      unfold wcount in A7.
-      destruct e; try (destruct A7 as (-> & -> & ->); reflexivity).
-      destruct (closing a); destruct A7 as (-> & -> & ->); reflexivity. }
+    assert (E6 : list_eqb Nat.eqb (counts (o1 ++ o2)) (expected e a) = true).
+    { rewrite (counts_app_quiet _ _ S8). unfold wcount in A7. rewrite A7.
+      clear. induction (expected e a) as [|x l IHl]; cbn; auto. rewrite Nat.eqb_refl; auto. }
     rewrite E1, E2, E3, E4, E5, E6. reflexivity.
   - unfold Inv. cbn [fst].
     assert (Jb (note_sc (s_sc s2) a2) s2 = Jb a2 s2) as -> by (destruct a2; reflexivity).
